@@ -293,7 +293,7 @@ theorem setAt_mid {α : Type} (pre : List α) (y x : α) (r : List α) (k : Int)
   · simp
 
 /-- the loop `for i, frag in new.idx_fragments(): new.rows[i] = frag.reverse()`, started when the rows before position `k` (`pre`)
-    are done and the next free object id is `n`.  `pk` packs the loop state (the generated tuple is ordered by variable name);
+    are done and the next free object id is `n`.  `pk` packs the loop state (whatever order the generated tuple has);
     `hbody` says what one pass does and is discharged at the use site by `rfl`. -/
 theorem forIn_reverse {σ ρ : Type} (pk : Scaffold → Nat → σ) (body : Int × Fragment → σ → R (PyRt.Ctl σ ρ))
     (hbody : ∀ (i : Int) (frag : Fragment) (sc : Scaffold) (n : Nat), body (i, frag) (pk sc n) =
@@ -335,9 +335,9 @@ theorem forIn_reverse {σ ρ : Type} (pk : Scaffold → Nat → σ) (body : Int 
         rw [if_neg hv']
         simp only [bind, Except.bind, hv'', false_and, if_false]
 
-/-- the loop state of the generated `Scaffold_reverse_imp`, components in the generated (by variable name) order: the one place to
-    edit if the translator permutes the state tuple -/
-abbrev pkState (sc : Scaffold) (n : Nat) : Scaffold × Nat := (sc, n)
+/-- the loop state of the generated `Scaffold_reverse_imp`, components in the generated order (by the Lean text of the type, then by
+    variable name: `(nextOid, new)`): the one place to edit if the translator permutes the state tuple -/
+abbrev pkState (sc : Scaffold) (n : Nat) : Nat × Scaffold := (n, sc)
 
 /-- the whole function: with all fragment rows valid it returns the next free id and the renumbered model result; otherwise the
     `Fragment.__init__` call inside `frag.reverse()` raises ValueError (the row assignments never raise) -/
